@@ -60,13 +60,63 @@ def metamorphic_cases(chk, n):
     return out
 
 
+def grouped_correlated_cases(chk, n):
+    """Correlated subqueries whose body has its own GROUP BY / HAVING (the decorrelation has to add the correlated
+    column to every grouping set of an aggregate that already groups). Expected rows by direct nested evaluation."""
+    rng = chk.rng
+    out = []
+    for i in range(n):
+        n1, n2 = rng.choice([1, 3, 8]), rng.choice([0, 4, 15, 40])
+        t1 = [(k, rng.choice([10, 20, 30, None])) for k in range(1, n1 + 1)]                    # (a, c); a is never NULL
+        t2 = [(rng.choice([None] + list(range(1, n1 + 2))), rng.choice([10, 20, 30, None]), rng.randint(0, 5)) for _ in range(n2)]   # (a, b, v)
+        kk = rng.choice([0, 1, 2])
+        def groups(a):
+            g = {}
+            for (a2, b, v) in t2:
+                if a2 is not None and a2 == a:
+                    g.setdefault(b, []).append(v)
+            return g
+        q = []
+        # EXISTS over a grouped, filtered body
+        q.append((f"SELECT t1.a, EXISTS (SELECT 1 FROM t2 WHERE t2.a = t1.a GROUP BY t2.b HAVING count(*) > {kk}) FROM t1",
+                  [(a, any(len(vs) > kk for vs in groups(a).values())) for (a, c) in t1]))
+        # IN over a grouped body (non-NULL probe value and NULL-free candidate set keep it two-valued)
+        q.append((f"SELECT t1.a FROM t1 WHERE t1.c IN (SELECT t2.b FROM t2 WHERE t2.a = t1.a AND t2.b IS NOT NULL GROUP BY t2.b)",
+                  [(a,) for (a, c) in t1 if c is not None and c in [b for b in groups(a) if b is not None]]))
+        # scalar subquery over a derived grouped table
+        def mx(a):
+            cs = [len(vs) for vs in groups(a).values()]
+            return max(cs) if cs else None
+        q.append(("SELECT t1.a, (SELECT max(s.n) FROM (SELECT count(*) AS n FROM t2 WHERE t2.a = t1.a GROUP BY t2.b) s) FROM t1", [(a, mx(a)) for (a, c) in t1]))
+        def sm(a):
+            cs = [sum(vs) for b, vs in groups(a).items() if len(vs) >= 2]
+            return sum(cs) if cs else None
+        q.append(("SELECT t1.a, (SELECT sum(s.w) FROM (SELECT t2.b, sum(t2.v) AS w FROM t2 WHERE t2.a = t1.a GROUP BY t2.b HAVING count(*) >= 2) s) FROM t1", [(a, sm(a)) for (a, c) in t1]))
+        # two grouping columns inside, correlation in the filter
+        def ng(a):
+            return len({(b, v % 2) for (a2, b, v) in t2 if a2 is not None and a2 == a})
+        # (sum(1), not count(*): a correlated scalar COUNT over an empty set is a recorded deviation)
+        q.append(("SELECT t1.a, (SELECT sum(s.one) FROM (SELECT 1 AS one, t2.b, t2.v % 2 AS p FROM t2 WHERE t2.a = t1.a GROUP BY t2.b, t2.v % 2) s) FROM t1", [(a, ng(a) or None) for (a, c) in t1]))
+        lit = lambda v: "NULL" if v is None else str(v)
+        steps = [{"sql": "CREATE TEMP TABLE t1 (a INT, c INT)", "out": "count"}, {"sql": "CREATE TEMP TABLE t2 (a INT, b INT, v INT)", "out": "count"},
+                 {"sql": "INSERT INTO t1 VALUES " + ", ".join(f"({lit(a)}, {lit(c)})" for a, c in t1), "out": "count"}]
+        if t2:
+            steps.append({"sql": "INSERT INTO t2 VALUES " + ", ".join(f"({lit(a)}, {lit(b)}, {lit(v)})" for a, b, v in t2), "out": "count"})
+        nload = len(steps)
+        for sql, _ in q:
+            steps.append({"sql": sql})
+        c = {"id": f"c09-g{i}", "exec": {"kind": "det", "policy": "random", "seed": rng.randint(0, 1 << 30), "partitions": rng.choice([1, 2, 4])}, "steps": steps, "max_rows": 1000}
+        out.append((c, nload, q))
+    return out
+
+
 def run(chk):
     thorough = chk.tier == "thorough"
     chk.rule = ("(1) generator weighted to scalar/EXISTS/IN/ANY/ALL/LATERAL subqueries correlated through filters, projections, aggregates "
                 "(COUNT/SUM/MIN over possibly empty sets), placed in the select list, WHERE, under NOT, with NULL and duplicate outer values and "
                 "inner sets empty for some outer rows; oracle = per-outer-row nested evaluation in vf/refsql.py. (2) metamorphic quadruples: the "
                 "same inner query as WITH, WITH MATERIALIZED, CREATE TEMP VIEW and inlined derived table, referenced once or twice, must agree. "
-                "(3) the documented MATERIALIZED + random() example must return true. distinct non-trivial = distinct (feature tags, database) "
+                "(2b) correlated EXISTS / IN / scalar subqueries whose body has its own GROUP BY / HAVING (also through a derived table), expected rows by direct nested evaluation in Python. (3) the documented MATERIALIZED + random() example must return true. distinct non-trivial = distinct (feature tags, database) "
                 "compared in (1) + distinct metamorphic quadruples that agreed with a non-empty result")
     chk.assumptions = ["vf/refsql.py nested evaluation", "recorded deviations (two-valued IN/ANY/ALL, COUNT bug, LATERAL NULL correlation) are recognised by model switches tied to their triggers"]
     knowncases.run_known_cases(chk)
@@ -141,6 +191,39 @@ def run(chk):
             if ref:
                 chk.nontrivial(("metamorphic", isql, tmpl))
     chk.extra["metamorphic_quadruples_agreeing"] = agree
+    # (2b) correlated subqueries with their own GROUP BY
+    gc = grouped_correlated_cases(chk, 300 if thorough else 50)
+    results, m = vrun.run_sharded([c for c, _, _ in gc], shards=16, wall_s=900)
+    gok = 0
+    for (c, nload, q) in gc:
+        res = results.get(c["id"])
+        if res is None or "steps" not in res:
+            if res is not None and "died" in res:
+                chk.violation(outcome_signature(res), f"grouped-correlated case died: {json.dumps(res['died'])[:300]}", {"cases": [c]})
+            else:
+                chk.inconc("grouped-correlated case not run")
+            continue
+        for (sql, want), st in zip(q, res["steps"][nload:]):
+            if st["outcome"] == "skipped":
+                break
+            chk.evaluated()
+            if st["outcome"] == "panic":
+                chk.violation(outcome_signature(st), f"panic: {st.get('panic_msg')} @ {st.get('panic_loc')}\n{sql}", {"cases": [c]})
+                break
+            if st["outcome"] != "rows":
+                first = (st.get("error") or "").split("\n")[0]
+                chk.violation({"kind": "unexpected-error", "message": qcheck.compare_msg(first)}, f"grouped correlated subquery failed: {first}\n{sql}", {"cases": [c], "sql": sql})
+                continue
+            rows = [compare.dec_row(r) for r in st.get("rows", [])]
+            ok, why = compare.bag_equal([tuple(w) for w in want], rows)
+            if not ok:
+                chk.violation({"kind": "wrong-rows", "form": "correlated-subquery-with-group-by", "shape": sql.split("(SELECT")[1][:24].strip() if "(SELECT" in sql else "in"},
+                              f"{why}\n{sql}\nexpected {want[:6]} got {rows[:6]}", {"cases": [c], "sql": sql})
+            else:
+                gok += 1
+                if any(any(x not in (None, False, 0) for x in w[1:]) for w in want) or (want and len(want[0]) == 1):
+                    chk.nontrivial(("grouped-correlated", c["id"], sql[:60]))
+    chk.extra["grouped_correlated_ok"] = gok
     # (3) documented example
     res, _ = vrun.run_cases([{"id": "doc", "exec": {"kind": "det", "policy": "random", "seed": chk.seed, "partitions": 4},
                               "steps": [{"sql": "WITH c AS MATERIALIZED (SELECT random() * 100 AS a) SELECT c1.a = c2.a FROM c AS c1, c AS c2"}]}])
